@@ -2412,6 +2412,13 @@ impl RaftNode {
             return;
         }
 
+        // An answer to an append of an earlier term says nothing about the follower's log
+        // now: both logs may have been truncated and regrown since. Counting such a stale
+        // success towards match_index lets an entry commit that a majority does not hold.
+        if aer.term < persistent.current_term {
+            return;
+        }
+
         let should_advance_commit = {
             let mut leadership = self.leadership.write();
             if let Some(ref mut ls) = leadership.leader_volatile {
